@@ -338,22 +338,29 @@ pub fn close_checked(ctx: &mut Ctx, w: &World, stage: Stage, zero: bool) -> Opti
         Stage::Started(x) => x.close(&mut rng),
         Stage::Locked(x) => x.close(&mut rng),
     };
-    let r = match rng.scalars_in_log().first() { Some(r) => *r, None => { ctx.broken("close() drew no re-randomiser"); return None; } };
+    // a close that draws no re-randomiser breaks the correspondence (reported), but the message it produced is still
+    // examined by the callers (merchant-side check here, atom scan in C14, ledger in C03 / C04): the failing input, if
+    // there is one, is in the message, not in the draw count
+    let drawn = rng.scalars_in_log().first().copied();
+    if drawn.is_none() { ctx.broken("close() drew no re-randomiser"); }
+    let r = drawn.unwrap_or(Scalar::one());
     let mb = wire::ser(&cm);
     let (cb_v, mb_v) = (u64_at(&mb, 168), u64_at(&mb, 160));
     let mut cidb = [0u8; 32]; cidb.copy_from_slice(&mb[96..128]);
     let cid_s = cid_scalar(&cidb);
     let (sig, cs) = cm.into_parts();
     let ok = matches!(w.merchant.check_close_signature(sig, &cs), Verification::Verified);
-    let mut reals = vec![Real::V("closing".into())];
-    if r == Scalar::zero() {
-        reals.extend(vec![Real::G1(G1Affine::identity()), Real::G1(G1Affine::identity())]);
-    } else {
-        reals.extend(sig_reals(&mb[..96])?);
+    if drawn.is_some() {
+        let mut reals = vec![Real::V("closing".into())];
+        if r == Scalar::zero() {
+            reals.extend(vec![Real::G1(G1Affine::identity()), Real::G1(G1Affine::identity())]);
+        } else {
+            reals.extend(sig_reals(&mb[..96])?);
+        }
+        reals.extend(vec![Real::S(cid_s), Real::S(s_at(&mb, 128).unwrap()), Real::N(cb_v as u128), Real::N(mb_v as u128), Real::B(ok)]);
+        let line = format!("cust close {} {} | {} | {}", pk_args(&w.kpd.pk), hex_s(&CLOSE_SCALAR), fields, hex_s(&r));
+        let _ = ctx.expect(&line, &reals);
     }
-    reals.extend(vec![Real::S(cid_s), Real::S(s_at(&mb, 128).unwrap()), Real::N(cb_v as u128), Real::N(mb_v as u128), Real::B(ok)]);
-    let line = format!("cust close {} {} | {} | {}", pk_args(&w.kpd.pk), hex_s(&CLOSE_SCALAR), fields, hex_s(&r));
-    let _ = ctx.expect(&line, &reals);
     ctx.count(&format!("close:{}:{}{}", name, ok, if r == Scalar::zero() { ":zero-randomiser" } else { "" }));
     if r != Scalar::zero() && !ok {
         ctx.violation(&format!("the merchant's close check rejects the customer's closing message at stage {}", name), json!({"class": "close-rejected", "stage": name}));
